@@ -49,7 +49,7 @@ pub fn generate(prop: &str, tier: &str, seed: u64) -> Vec<Vec<String>> {
         "C14" => flwgen::gen_c14(tier, seed),
         "C16" => flwgen::gen_c16(tier, seed),
         "C18" => flwgen::gen_c18(tier, seed),
-        "C19" => flwgen::gen_c19(tier, seed),
+        "C19" => { let mut v = flwgen::gen_c19(tier, seed); v.extend(stdout::gen_errchan(tier, seed)); v }
         _ => {
             eprintln!("no generator for {prop}");
             std::process::exit(2);
@@ -85,7 +85,13 @@ pub fn execute(ctx: &mut Ctx, lines: &[String]) -> Vec<(Vec<String>, Vec<String>
         "conc" => conc::execute(ctx, lines),
         "fmt" => vec![(lines.to_vec(), fmt::execute(ctx, lines))],
         "names" => vec![(lines.to_vec(), names::execute(ctx, lines))],
-        "std" => vec![(lines.to_vec(), stdout::execute(ctx, lines))],
+        "std" => {
+            let ans = stdout::execute(ctx, lines);
+            // `ERRCHAN ch fault n` is rewritten into what the reference run reported (`ERRCHANOBS ch <reports>`)
+            let reference = stdout::ERRCHAN_REF.lock().unwrap().take();
+            let eff: Vec<String> = lines.iter().map(|l| { let t = tokens(l); if t.first() == Some(&"ERRCHAN") { format!("ERRCHANOBS {} {}", t[1], reference.clone().unwrap_or_else(|| "-".into())) } else { l.clone() } }).collect();
+            vec![(eff, ans)]
+        }
         m => panic!("unknown model {m}"),
     }
 }
@@ -130,6 +136,7 @@ pub fn child_main(args: &[String]) {
         }
         Some("recurse") => robust::child_recurse(&args[1..]),
         Some("buflog") => robust::child_buflog(&args[1..]),
+        Some("errchan") => stdout::child_errchan(&args[1..]),
         Some("concstd") => conc::child_concstd(&args[1..]),
         _ => {
             eprintln!("unknown child mode");
